@@ -21,26 +21,26 @@ type Intrinsic func(e *Exec, caller *frame, fn *ssa.Function, args []Value) (res
 
 // Program: everything shared by all paths and workers (read-only after Load).
 type Program struct {
-	Prog       *ssa.Program
-	Pkg        *ssa.Package // package under test (with harness overlay)
-	Fset       interface{}
-	InitSteps  int
-	intrinsics map[string]Intrinsic
-	guardAware map[string]bool // intrinsics that handle guarded values themselves
-	infos      map[*ssa.Function]*fnInfo
-	infoMu     sync.Mutex
-	pristine   map[*ssa.Global]*Obj
-	rtErrType  types.Type
-	litMu      sync.Mutex
-	lits       map[string]uint64
-	litNames   []string
-	methMu     sync.Mutex
-	methCache  map[string]*ssa.Function
-	fnCache    map[string]*ssa.Function
-	allPkgs    map[string]*ssa.Package
-	LoadTime   time.Duration
-	RepoDir    string
-	Extra      map[string]interface{} // model tables (json field tables, ...)
+	Prog         *ssa.Program
+	Pkg          *ssa.Package // package under test (with harness overlay)
+	Fset         interface{}
+	InitSteps    int
+	intrinsics   map[string]Intrinsic
+	guardAware   map[string]bool // intrinsics that handle guarded values themselves
+	infos        map[*ssa.Function]*fnInfo
+	infoMu       sync.Mutex
+	pristine     map[*ssa.Global]*Obj
+	rtErrType    types.Type
+	litMu        sync.Mutex
+	lits         map[string]uint64
+	litNames     []string
+	methMu       sync.Mutex
+	methCache    map[string]*ssa.Function
+	fnCache      map[string]*ssa.Function
+	allPkgs      map[string]*ssa.Package
+	LoadTime     time.Duration
+	RepoDir      string
+	Extra        map[string]interface{} // model tables (json field tables, ...)
 	InitProblems []string
 	rtypeOnce    sync.Once
 	rtypeT       types.Type
@@ -211,16 +211,16 @@ type KnownRegion struct {
 }
 
 type Exec struct {
-	P      *Program
-	Solver *sym.Solver
-	Cross  *sym.Solver
-	curFr  *frame
-	i2f    map[*T]*T // float terms produced from integer JSON tokens -> the integer term
+	P                    *Program
+	Solver               *sym.Solver
+	Cross                *sym.Solver
+	curFr                *frame
+	i2f                  map[*T]*T // float terms produced from integer JSON tokens -> the integer term
 	CrossQ, CrossUnknown int
-	pc     []*T
-	prefix []int32
-	trace  []int32
-	alts   [][]int32 // alternative prefixes discovered on this path
+	pc                   []*T
+	prefix               []int32
+	trace                []int32
+	alts                 [][]int32 // alternative prefixes discovered on this path
 
 	globals      map[*ssa.Global]*Obj
 	cloneMemo    map[*Obj]*Obj
@@ -234,33 +234,33 @@ type Exec struct {
 
 	MapOrderSymbolic bool
 
-	inputs     []*T // symbolic input variables in creation order
-	inputNames map[string]int
-	dom        map[string]*byteDom
-	multiVar   map[string]bool
-	pcVars     map[string]bool   // variables mentioned by some path-condition conjunct
-	known      map[string]uint64 // bytes whose domain has shrunk to a single value
-	DomHits    int
-	ModelHits  int
-	model      map[string]uint64 // an assignment known to satisfy the current pc (or nil)
-	curFn      string
+	inputs      []*T // symbolic input variables in creation order
+	inputNames  map[string]int
+	dom         map[string]*byteDom
+	multiVar    map[string]bool
+	pcVars      map[string]bool   // variables mentioned by some path-condition conjunct
+	known       map[string]uint64 // bytes whose domain has shrunk to a single value
+	DomHits     int
+	ModelHits   int
+	model       map[string]uint64 // an assignment known to satisfy the current pc (or nil)
+	curFn       string
 	onceShare   string // non-empty while the body of a shared sync.Once runs
 	onceCtr     int
 	tracing     bool
 	events      []TraceEvent
 	Traces      map[string][]TraceEvent
 	atomicDepth int
-	pendingAll []*pendingIter
+	pendingAll  []*pendingIter
 	NoLazyRange bool
-	sub        *subCtx
-	sumBad     map[*ssa.Function]bool
+	sub         *subCtx
+	sumBad      map[*ssa.Function]bool
 	NoSummaries bool
-	fixed      map[string]uint64 // explicit choices (vChoose), by uniquified name
-	fixedOrder []string
-	Known      []KnownRegion
-	KnownHits  []*Witness
-	notes      []string
-	funcsSeen  map[string]bool
+	fixed       map[string]uint64 // explicit choices (vChoose), by uniquified name
+	fixedOrder  []string
+	Known       []KnownRegion
+	KnownHits   []*Witness
+	notes       []string
+	funcsSeen   map[string]bool
 
 	// results of this path
 	Obligations  int
@@ -1083,20 +1083,20 @@ func (e *Exec) Assert(c *T, msg string) {
 
 // PathResult summarises one explored path.
 type PathResult struct {
-	Prefix       []int32
-	Alts         [][]int32
-	End          string // done | assume | unsupported | bound | panic
-	Msg          string
-	Steps        int
-	Obligations  int
-	Discharged   int
-	Violations   []*Witness
-	Reach        *Witness
-	Undischarged []string
-	Funcs        map[string]bool
-	PanicMsg     string
-	KnownHits    []*Witness
-	Traces       map[string][]TraceEvent
+	Prefix               []int32
+	Alts                 [][]int32
+	End                  string // done | assume | unsupported | bound | panic
+	Msg                  string
+	Steps                int
+	Obligations          int
+	Discharged           int
+	Violations           []*Witness
+	Reach                *Witness
+	Undischarged         []string
+	Funcs                map[string]bool
+	PanicMsg             string
+	KnownHits            []*Witness
+	Traces               map[string][]TraceEvent
 	CrossQ, CrossUnknown int
 }
 
@@ -1188,27 +1188,29 @@ func RunPath(p *Program, solver *sym.Solver, fn *ssa.Function, prefix []int32, o
 // ---------- exploration ----------
 
 type Stats struct {
-	Paths         int
-	ByEnd         map[string]int
-	Steps         int64
-	Obligations   int
-	Discharged    int
-	Violations    []*Witness
-	KnownHits     []*Witness
-	Traces        map[string][][]TraceEvent // distinct traces per name
-	traceSeen     map[string]bool
-	Reach         []*Witness
-	Undischarged  []string
-	Unsupported   map[string]int
-	BoundMsgs     map[string]int
-	Funcs         map[string]bool
-	Queries       int
-	SolverTime    time.Duration
-	SolverErrors  []string
-	Wall          time.Duration
-	PathLimitHit  bool
+	Paths                int
+	ByEnd                map[string]int
+	Steps                int64
+	Obligations          int
+	Discharged           int
+	Violations           []*Witness
+	KnownHits            []*Witness
+	Traces               map[string][][]TraceEvent // distinct traces per name
+	traceSeen            map[string]bool
+	Reach                []*Witness
+	Undischarged         []string
+	Unsupported          map[string]int
+	BoundMsgs            map[string]int
+	Funcs                map[string]bool
+	Queries              int
+	SolverTime           time.Duration
+	SolverErrors         []string
+	Wall                 time.Duration
+	PathLimitHit         bool
+	NViol, NKnown        int // exact counts (Violations / KnownHits keep at most 8 witnesses per message / finding)
+	keep                 map[string]int
 	CrossQ, CrossUnknown int
-	CrossTime     time.Duration
+	CrossTime            time.Duration
 }
 
 // Explore runs the harness over all decision prefixes with nWorkers workers.
@@ -1288,8 +1290,24 @@ func Explore(p *Program, harness string, o Opts, nWorkers int, solverKind string
 				st.Discharged += res.Discharged
 				st.CrossQ += res.CrossQ
 				st.CrossUnknown += res.CrossUnknown
-				st.Violations = append(st.Violations, res.Violations...)
-				st.KnownHits = append(st.KnownHits, res.KnownHits...)
+				// witnesses are retained up to a small number per message / finding (memory); counts are exact
+				if st.keep == nil {
+					st.keep = map[string]int{}
+				}
+				for _, v := range res.Violations {
+					st.NViol++
+					if k := "v|" + v.Msg; st.keep[k] < 8 {
+						st.keep[k]++
+						st.Violations = append(st.Violations, v)
+					}
+				}
+				for _, v := range res.KnownHits {
+					st.NKnown++
+					if k := "k|" + v.Known; st.keep[k] < 8 {
+						st.keep[k]++
+						st.KnownHits = append(st.KnownHits, v)
+					}
+				}
 				for tn, tr := range res.Traces {
 					key := tn + "|" + fmt.Sprint(tr)
 					if st.traceSeen == nil {
